@@ -40,19 +40,44 @@ def addToCache (limit : Key → Nat) (c : Cache) (k : Key) (l : Loc) : Cache :=
     (if Gen.evictSkipsCurrent then c1.popFirstOther k else c1.popFirst)
   else c1
 
-/-- `_get_*_cache`: build and insert on a miss, then index (KeyError if the entry is not there) -/
+/-- `_get_*_cache`: look the entry up once; on a miss build, insert and hand back the value just built (`Gen.dictGettersReadOnce`), or —
+    as the pinned tree had it — index the shared cache a second time (KeyError if the entry is not there any more) -/
 def getCached (limit : Key → Nat) (c : Cache) (k : Key) (l : Loc) : Cache × Out :=
   match c.lookup k l with
   | some v => (c, .val v)
   | none =>
     let c' := addToCache limit c k l
-    match c'.lookup k l with
-    | some v => (c', .val v)
-    | none => (c', .keyError)
+    if Gen.dictGettersReadOnce then (c', .val (k, l))
+    else match c'.lookup k l with
+      | some v => (c', .val v)
+      | none => (c', .keyError)
 
 def run (limit : Key → Nat) : Cache → List (Key × Loc) → List Out
   | _, [] => []
   | c, (k, l) :: ops => let r := getCached limit c k l; r.2 :: run limit r.1 ops
+
+/-- the cache after a sequence of complete accesses (other threads running while one access is parked) -/
+def finalCache (limit : Key → Nat) : Cache → List (Key × Loc) → Cache
+  | c, [] => c
+  | c, (k, l) :: ops => finalCache limit (getCached limit c k l).1 ops
+
+/-- one access that other threads interrupt: `e1` are the accesses that complete between its look-up and its insertion, `e2` those between
+    the insertion and the statement that produces the result.  `readOnce = false` is the getter of the pinned tree: membership test,
+    (insert), then a second indexing of the shared cache. -/
+def getPreempted (readOnce : Bool) (limit : Key → Nat) (c : Cache) (k : Key) (l : Loc) (e1 e2 : List (Key × Loc)) : Cache × Out :=
+  if readOnce then
+    match c.lookup k l with
+    | some v => (c, .val v)
+    | none =>
+      let c3 := finalCache limit (addToCache limit (finalCache limit c e1) k l) e2
+      (c3, .val (k, l))
+  else
+    let c1 := finalCache limit c e1
+    let c2 := if (c.lookup k l).isSome then c1 else addToCache limit c1 k l
+    let c3 := finalCache limit c2 e2
+    match c3.lookup k l with
+    | some v => (c3, .val v)
+    | none => (c3, .keyError)
 
 -- ---------------------------------------------------------------- DATE_ORDER write / restore
 /-- outcome of the parse method called between the write and the restore -/
